@@ -86,6 +86,9 @@ CORPUS = [
 
 def gen(rng: random.Random, tier: str):
     cases = []
+    probe = mk_case(2, [[0, 1]], 0, rng, tags=("corpus", "probe-deep"))
+    probe.data["probe"] = "deep"      # one-off probe (the case itself is trivial): see _deep_probe
+    cases.append(probe)
     for n, edges in CORPUS:
         for s in range(n):
             cases.append(mk_case(n, edges, s, rng, tags=("corpus",)))
@@ -156,13 +159,15 @@ def _run(d):
     res["anc"] = [ids(x) for x in s.ancestors]
     res["desc"] = [ids(x) for x in s.descendants]
     res["sib"] = [ids(x) for x in s.siblings]
-    go = []
+    raw = []
     for t in nodes:
         try:
-            go.append([[ids(x) for x in path] for path in s.go_to(t)])
+            raw.append(s.go_to(t))
         except TreeError:
-            go.append(None)
-    res["go"] = go
+            raw.append(None)
+    # the answers are read only after ALL the calls were made (a table filled first and evaluated afterwards): an answer
+    # belongs to the caller and must not change when the next question is asked
+    res["go"] = [None if g is None else [[ids(x) for x in path] for path in g] for g in raw]
     return ids, nodes, res
 
 
@@ -208,8 +213,44 @@ def compare(a, b, case):
 
 
 # ---------------------------------------------------------------- oracle (model-free)
+def _deep_probe():
+    """a DAG far deeper than anything the small-scope part reaches: a spine n0 -> ... -> n299, every pair of neighbours
+    on it sharing a child (n_i -> t_i <- n_i+1), so below ANY depth there is a node with two unvisited neighbours that are
+    adjacent to each other: dag_iterator must still hand out every edge exactly once, from the top, the middle and a leaf"""
+    from bigtree import DAGNode, dag_iterator
+    L = 300
+    spine = [DAGNode("n%d" % i) for i in range(L)]
+    for a, b in zip(spine, spine[1:]):
+        a >> b
+    leaves = []
+    for i in range(L - 1):
+        t = DAGNode("t%d" % i)
+        spine[i] >> t
+        spine[i + 1] >> t
+        leaves.append(t)
+    want = sorted([("n%d" % i, "n%d" % (i + 1)) for i in range(L - 1)] + [("n%d" % i, "t%d" % i) for i in range(L - 1)]
+                  + [("n%d" % (i + 1), "t%d" % i) for i in range(L - 1)])
+    msgs = []
+    for start in (spine[0], spine[L // 2], spine[-1], leaves[7]):
+        try:
+            got = sorted((p.node_name, c.node_name) for p, c in dag_iterator(start))
+        except Exception as e:  # noqa: BLE001
+            msgs.append(f"dag_iterator from {start.node_name} on a spine of {L} raised {type(e).__name__}")
+            continue
+        if got != want:
+            missing = [e for e in want if e not in set(got)][:4]
+            msgs.append(f"dag_iterator from {start.node_name} on a spine of {L} with shared leaves: {len(got)} edges handed out, "
+                        f"{len(want)} exist; missing {missing}, repeated {len(got) - len(set(got))}")
+    anc = sorted(x.node_name for x in leaves[-1].ancestors)
+    if anc != sorted("n%d" % i for i in range(L)):
+        msgs.append(f"ancestors of the last leaf on a spine of {L}: {len(anc)} listed, {L} exist")
+    return msgs
+
+
 def oracle(case):
     d = case.data
+    if d.get("probe") == "deep":
+        return _deep_probe()
     try:
         ids, nodes, r = _run(d)
     except Exception as e:
